@@ -108,45 +108,75 @@ def run(ctx):
         ctx.unsure("R10.2", "fixed_point_iteration", "iteration loop with an else clause not found", f.loc())
     else:
         lp = main[0]
-        # convergence flag
-        conv = [n for n in ast.walk(lp) if isinstance(n, ast.Assign) and any(
-            ast.unparse(t).startswith("converged") for t in n.targets)]
-        it3 = Interp(p)
-        ok_conv = False
-        if len(conv) == 1:
-            env = Env(it3, f, f.module)
-            env.vars.update({"absolute_difference": P("absdiff"), "relative_difference": P("reldiff"),
-                             "configuration": Obj(p.get_class("tools.solvers.Configuration"), {"atol": P("atol"), "rtol": P("rtol")})})
-            v = T.to_term(it3.eval(conv[0].value, env))
-            ok_conv = v == T.AND(CMP("lt", P("absdiff"), P("atol")), CMP("lt", P("reldiff"), P("rtol")))
-            ctx.expect(ok_conv, "R10.2", "fixed_point_iteration[convergence test]",
-                       "converged == (|x_n - x_{n-1}| < atol) & (relative difference < rtol), element-wise", f.loc(conv[0]), derived=v)
-        else:
-            ctx.unsure("R10.2", "fixed_point_iteration[convergence test]", "single assignment of the convergence flag not found", f.loc())
-        # exhaustion branch
         els = lp.orelse
-        raises = [n for st in els for n in ast.walk(st) if isinstance(n, ast.Raise)]
+        rets = [n for n in own_walk(f.node) if isinstance(n, ast.Return) and n.value is not None]
+        # the array that receives the NaN marks on exhaustion, and the mask that selects them: `<result>[~<mask>] = nan`
         nan_stores = [n for st in els for n in ast.walk(st) if isinstance(n, ast.Assign)
-                      and ast.unparse(n.value) in ("np.nan", "numpy.nan")
-                      and any("~converged" in ast.unparse(t) for t in n.targets)]
+                      and ast.unparse(n.value) in ("np.nan", "numpy.nan", "float('nan')")
+                      and isinstance(n.targets[0], ast.Subscript) and isinstance(n.targets[0].slice, ast.UnaryOp)
+                      and isinstance(n.targets[0].slice.op, ast.Invert) and isinstance(n.targets[0].slice.operand, ast.Name)]
+        mask = nan_stores[0].targets[0].slice.operand.id if len(nan_stores) == 1 else None
         err_ifs = [n for st in els for n in ast.walk(st) if isinstance(n, ast.If) and "error_if_not_converged" in ast.unparse(n.test)]
+        raises = [n for st in els for n in ast.walk(st) if isinstance(n, ast.Raise)]
         ok_else = len(err_ifs) == 1 and any(r_ in [x for b in err_ifs[0].body for x in ast.walk(b)] for r_ in raises) \
             and any(s_ in [x for b in err_ifs[0].orelse for x in ast.walk(b)] for s_ in nan_stores)
         ctx.expect(ok_else, "R10.2", "fixed_point_iteration[exhaustion]",
                    "when the iteration budget is exhausted the non-converged elements become NaN, unless the error flag is set "
                    "(then it raises)", f.loc(els[0]) if els else f.loc())
         tgt = nan_stores[0].targets[0] if nan_stores else None
-        rets = [n for n in own_walk(f.node) if isinstance(n, ast.Return)]
-        same = bool(tgt) and bool(rets) and isinstance(tgt, ast.Subscript) and ast.unparse(tgt.value) == ast.unparse(rets[-1].value)
+        same = bool(tgt) and bool(rets) and ast.unparse(tgt.value) == ast.unparse(rets[-1].value)
         ctx.expect(same, "R10.2", "fixed_point_iteration[NaN lands in the result]",
                    "the array that receives the NaN marks is the one returned", f.loc())
+        # convergence flag: the single assignment to the mask inside the loop, with every local it reads replaced by its
+        # definition; the iterate list is the object the result is taken from
+        conv = [n for n in ast.walk(lp) if isinstance(n, ast.Assign) and mask is not None and any(
+            (isinstance(t, ast.Name) and t.id == mask) or (isinstance(t, ast.Subscript) and isinstance(t.value, ast.Name)
+                                                            and t.value.id == mask) for t in n.targets)]
+        it3 = Interp(p)
+        res_list = rets[-1].value.value.id if rets and isinstance(rets[-1].value, ast.Subscript) and isinstance(
+            rets[-1].value.value, ast.Name) else None
+        if len(conv) == 1 and res_list is not None:
+            from .fc import substitute_defs
+            rhs = substitute_defs(f.node, conv[0].value, {res_list, "configuration"})
+            env = Env(it3, f, f.module)
+            x0, x1, x2 = P("x_prev2"), P("x_prev"), P("x_new")
+            env.vars.update({res_list: [x0, x1, x2],
+                             "configuration": Obj(p.get_class("tools.solvers.Configuration"), {"atol": P("atol"), "rtol": P("rtol")})})
+            v = T.to_term(it3.eval(rhs, env))
+            D = sp.Abs(x2 - x1)
+            ok_conv = False
+            if fname(v) == "and_" and len(v.args) == 2:
+                parts = {}
+                for a in v.args:
+                    if fname(a) == "lt" and a.args[1] == P("atol"):
+                        parts["abs"] = a.args[0]
+                    elif fname(a) == "lt" and a.args[1] == P("rtol"):
+                        parts["rel"] = a.args[0]
+                if set(parts) == {"abs", "rel"} and sp.simplify(parts["abs"] - D) == 0:
+                    q = sp.simplify(parts["rel"] / D)
+                    ok_conv = not T.find_ops(q, "isnan") and q != 0
+            ctx.expect(ok_conv, "R10.2", "fixed_point_iteration[convergence test]",
+                       "converged == (|x_n - x_{n-1}| < atol) & (|x_n - x_{n-1}|/scale < rtol), element-wise (both strict `<`, so a NaN "
+                       "iterate is never flagged converged)", f.loc(conv[0]), derived=v)
+        else:
+            ctx.unsure("R10.2", "fixed_point_iteration[convergence test]", "single assignment of the convergence mask not found", f.loc())
         # breaks only on a count of converged points and never on an Aitken step
+        from .fc import mentions_through_defs
         brks = [n for n in ast.walk(lp) if isinstance(n, ast.Break)]
         okb = True
+
+        def counts_mask(n):
+            return isinstance(n, ast.Call) and ast.unparse(n.func).split(".")[-1] in ("nansum", "sum", "count_nonzero", "all") \
+                and any(isinstance(x, ast.Name) and x.id == mask for a in n.args for x in ast.walk(a))
+
+        def is_aitken(n):
+            return isinstance(n, ast.Attribute) and n.attr == "aitken_acceleration"
         for b in brks:
             anc = [n for n in ast.walk(lp) if isinstance(n, ast.If) and b in [x for y in n.body for x in ast.walk(y)]]
-            tests = " && ".join(ast.unparse(a.test) for a in anc)
-            if "number_of_points_converged" not in tests or "not aitken_step" not in tests:
+            has_count = any(mentions_through_defs(f.node, a.test, counts_mask) for a in anc)
+            nots = [u.operand for a in anc for u in ast.walk(a.test) if isinstance(u, ast.UnaryOp) and isinstance(u.op, ast.Not)]
+            has_not_aitken = any(mentions_through_defs(f.node, u, is_aitken) for u in nots)
+            if not (has_count and has_not_aitken):
                 okb = False
         ctx.expect(okb and bool(brks), "R10.2", "fixed_point_iteration[early exit]",
                    "the loop stops early only on the count of converged points and never right after an extrapolation step", f.loc())
